@@ -17,6 +17,8 @@ package main
 //                                           segment cut count as written by the operation that
 //                                           triggered it); <val> = new byte value
 //   MUT MFREE <rel> <val> <si> <st>         byte <rel> after the last record of the last file
+//   MUT L <a> <b> <mask> <si> <st> <nsaves> <psize>   two lives: crash image as for Z, reopened for
+//                                           append, <nsaves> saves of <psize> bytes appended, closed, reopened
 //   MUT Z <a> <b> <mask> <si> <st>          crash between the synced states after operations a
 //                                           and b (-1 = Create): bit k of <mask> loses the k-th
 //                                           sector of the unsynced region
@@ -348,7 +350,7 @@ func scriptCmd(args []string) error {
 				t = endB
 			}
 			fmt.Fprintf(w, "T %s %s %s %s %d %d %d\n", id, B.id, m[4], m[5], len(B.files)-1, t, endA)
-		case m[0] == "Z" && len(m) == 6:
+		case (m[0] == "Z" && len(m) == 6) || (m[0] == "L" && len(m) == 8):
 			a, b := atoi(m[1]), atoi(m[2])
 			mask, _ := strconv.ParseUint(m[3], 10, 64)
 			da, db := 0, -1
@@ -390,7 +392,11 @@ func scriptCmd(args []string) error {
 			if sl == "" {
 				sl = "-"
 			}
-			fmt.Fprintf(w, "Z %s %s %s %s %d %s\n", id, B.id, m[4], m[5], endA, sl)
+			if m[0] == "L" {
+				fmt.Fprintf(w, "L %s %s %s %s %d %s %s %s\n", id, B.id, m[4], m[5], endA, sl, m[6], m[7])
+			} else {
+				fmt.Fprintf(w, "Z %s %s %s %s %d %s\n", id, B.id, m[4], m[5], endA, sl)
+			}
 		default:
 			invalid()
 		}
